@@ -519,12 +519,35 @@ SEMSEG_TS = st.lists(st.one_of(
 ), min_size=1, max_size=4)
 SEMSEG = st.fixed_dictionaries({"h": st.integers(1, 24), "w": st.integers(1, 24), "seed": SEED, "ts": SEMSEG_TS,
                                 "mask": st.sampled_from(["index", "dominated"])})
-SEMSEGW = st.fixed_dictionaries({"h": st.integers(2, 16), "w": st.integers(2, 16), "seed": SEED, "ts": SEMSEG_TS, "idx": st.integers(0, 2),
+# inside the wrapper the paired transforms may be mixed with image-only ones; these two draw from the per-sample generator without
+# changing a pixel (a flip that never fires, noise of scale zero), so the coordinate image keeps describing the geometry
+_IMG_ONLY = st.sampled_from([{"k": "KDRandomHorizontalFlip", "a": {"p": 0.0}}, {"k": "KDAdditiveGaussianNoise", "a": {"std": 0.0}}])
+SEMSEGW_TS = st.tuples(SEMSEG_TS, st.lists(st.tuples(st.integers(0, 4), _IMG_ONLY), max_size=2)).map(
+    lambda t: (lambda ts: [ts.insert(min(pos, len(ts)), m) for pos, m in t[1]] and ts or ts)(list(t[0])))
+SEMSEGW = st.fixed_dictionaries({"h": st.integers(2, 16), "w": st.integers(2, 16), "seed": SEED, "ts": SEMSEGW_TS, "idx": st.integers(0, 2),
                                  "mask": st.sampled_from(["index", "dominated"]),
                                  "mode": st.sampled_from(["x semseg", "semseg x", "x", "semseg"])})
 PATCH = st.fixed_dictionaries({"ph": st.integers(1, 5), "pw": st.integers(1, 5), "lh": st.integers(1, 5), "lw": st.integers(1, 5),
                                "c": st.integers(1, 3), "key": st.integers(0, 99), "a": st.integers(0, 9), "b": st.integers(0, 9), "seed": SEED})
 NORM = st.fixed_dictionaries({"h": st.integers(1, 12), "w": st.integers(1, 12), "c": st.integers(1, 4), "key": st.integers(0, 99), "seed": SEED})
+
+
+def check_box_helpers(spec):
+    """the library's two box-intersection helpers (corner form is what KDTwoRandomCrop records its overlap with, extent form is what a
+    user recomputes it with from the recorded i/j/h/w) against a pixel count"""
+    from kappadata.utils.bounding_box_utils import intersection_area_ijhw, intersection_area_ijkl
+    (i0, j0, h0, w0), (i1, j1, h1, w1) = spec["a"], spec["b"]
+    cells = {(r, c) for r in range(i0, i0 + h0) for c in range(j0, j0 + w0)} & {(r, c) for r in range(i1, i1 + h1) for c in range(j1, j1 + w1)}
+    got_hw = intersection_area_ijhw(i0, j0, h0, w0, i1, j1, h1, w1)
+    got_kl = intersection_area_ijkl(i0, j0, i0 + h0, j0 + w0, i1, j1, i1 + h1, j1 + w1)
+    if got_hw != len(cells) or got_kl != len(cells):
+        raise Violation("box-helpers:intersection-area-wrong", f"boxes {spec['a']} / {spec['b']} (i, j, h, w): extent form {got_hw}, corner form {got_kl}, "
+                                                               f"pixel count {len(cells)}")
+    disjoint_both = (i0 + h0 <= i1 or i1 + h1 <= i0) and (j0 + w0 <= j1 or j1 + w1 <= j0)
+    return Case(len(cells) == 0 or len(cells) in (h0 * w0, h1 * w1), ["disjoint-both-axes" if disjoint_both else "disjoint" if not cells else "overlap"])
+
+
+_BOX = st.tuples(st.integers(0, 12), st.integers(0, 12), st.integers(1, 8), st.integers(1, 8)).map(list)
 
 
 def F_(name, fn, strat, q=300, t=5000):
@@ -536,6 +559,7 @@ def F_(name, fn, strat, q=300, t=5000):
 FACETS = [
     F_("random-crop", check_random_crop, crop_spec(), q=600, t=8000),
     F_("two-random-crop", check_two_random_crop, two_crop_spec(), q=400),
+    F_("box-helpers", check_box_helpers, st.fixed_dictionaries({"a": _BOX, "b": _BOX}), q=300, t=3000),
     F_("random-resized-crop", check_random_resized_crop, rrc_spec(), q=500, t=8000),
     F_("simple-random-crop", check_simple_random_crop, simple_spec()),
     F_("random-erasing", check_random_erasing, ERASE, q=400),
